@@ -94,6 +94,8 @@ class GpRegressor:
         self.x = x if isinstance(x, ndarray) else array(x)
         self.y = y if isinstance(y, ndarray) else array(y)
         self.y = self.y.squeeze()
+        if self.y.ndim == 0:  # a single data point
+            self.y = self.y.reshape(1)
 
         if self.y.ndim != 1:
             raise ValueError(
@@ -296,6 +298,8 @@ class GpRegressor:
             # if y_err is given as a list or tuple, attempt conversion to an array
             if any([type(y_err) is t for t in [list, tuple]]):
                 y_err = array(y_err).squeeze()
+                if y_err.ndim == 0:  # a single data point
+                    y_err = y_err.reshape(1)
             elif type(y_err) is not ndarray:
                 # else if it isn't already an array raise an error
                 raise TypeError(
